@@ -5,6 +5,46 @@ from odata_query import ast, exceptions, typing, visitor
 
 log = logging.getLogger(__name__)
 
+# How tightly the SQL generated for a node binds, from loose to tight.
+# Used to decide when an operand needs to be wrapped in parentheses.
+_PREC_OR = 1
+_PREC_AND = 2
+_PREC_NOT = 3
+_PREC_COMPARE = 4  # =, !=, <, IS, IN, LIKE, ...
+_PREC_ADD = 5  # +, -, ||
+_PREC_MULT = 6  # *, /, %
+_PREC_UNARY_MINUS = 7
+_PREC_ATOM = 10
+
+# Functions that are rendered with an infix operator instead of a function call:
+_INFIX_FUNCTIONS = {
+    "contains": _PREC_COMPARE,
+    "endswith": _PREC_COMPARE,
+    "startswith": _PREC_COMPARE,
+    "hassubset": _PREC_COMPARE,
+    "indexof": _PREC_ADD,
+    "concat": _PREC_ADD,
+}
+
+
+def _sql_precedence(node: ast._Node) -> int:
+    """
+    Returns how tightly the SQL expression generated for ``node`` binds.
+    """
+    if isinstance(node, ast.BoolOp):
+        return _PREC_OR if isinstance(node.op, ast.Or) else _PREC_AND
+    if isinstance(node, ast.UnaryOp):
+        return _PREC_NOT if isinstance(node.op, ast.Not) else _PREC_UNARY_MINUS
+    if isinstance(node, ast.Compare):
+        return _PREC_COMPARE
+    if isinstance(node, ast.BinOp):
+        if isinstance(node.op, (ast.Add, ast.Sub)):
+            return _PREC_ADD
+        return _PREC_MULT
+    if isinstance(node, ast.Call):
+        return _INFIX_FUNCTIONS.get(node.func.name.lower(), _PREC_ATOM)
+    return _PREC_ATOM
+
 
 class AstToSqlVisitor(visitor.NodeVisitor):
     """
@@ -129,6 +169,15 @@ class AstToSqlVisitor(visitor.NodeVisitor):
         right = self.visit(node.right)
         op = self.visit(node.op)
 
+        # Keep the grouping of the OData expression. Operators of equal
+        # precedence associate to the left, so only the right side needs
+        # parentheses in that case.
+        precedence = _sql_precedence(node)
+        if _sql_precedence(node.left) < precedence:
+            left = f"({left})"
+        if _sql_precedence(node.right) <= precedence:
+            right = f"({right})"
+
         return f"{left} {op} {right}"
 
     def visit_Eq(self, node: ast.Eq) -> str:
@@ -166,9 +215,9 @@ class AstToSqlVisitor(visitor.NodeVisitor):
         comparator = self.visit(node.comparator)
 
         # In case of a subexpression, wrap it in parentheses
-        if isinstance(node.left, (ast.BoolOp, ast.Compare)):
+        if _sql_precedence(node.left) <= _PREC_COMPARE:
             left = f"({left})"
-        if isinstance(node.right, (ast.BoolOp, ast.Compare)):
+        if _sql_precedence(node.right) <= _PREC_COMPARE:
             right = f"({right})"
 
         #  'eq/ne null' should become 'IS (NOT) NULL' instead of '(!)= NULL'
@@ -214,7 +263,7 @@ class AstToSqlVisitor(visitor.NodeVisitor):
         operand = self.visit(node.operand)
 
         # In case of a subexpression, wrap it in parentheses
-        if isinstance(node.operand, ast.BoolOp):
+        if _sql_precedence(node.operand) < _sql_precedence(node):
             operand = f"({operand})"
 
         return f"{op} {operand}"
